@@ -856,6 +856,51 @@ func (w *_assembler) AssignBool(b bool) error {
 	return nil
 }
 
+// setUint stores a non-negative integer into the Go integer w.val holds (or points to),
+// refusing values the Go type cannot represent rather than truncating them.
+func (w *_assembler) setUint(u uint64) error {
+	typ := w.val.Type()
+	if typ.Kind() == reflect.Ptr {
+		typ = typ.Elem()
+	}
+	zero := reflect.Zero(typ)
+	switch {
+	case kindUint[typ.Kind()]:
+		if zero.OverflowUint(u) {
+			return fmt.Errorf("bindnode: integer overflow, %d is too large for %s", u, typ)
+		}
+		w.createNonPtrVal().SetUint(u)
+	case kindInt[typ.Kind()]:
+		if u > math.MaxInt64 || zero.OverflowInt(int64(u)) {
+			return fmt.Errorf("bindnode: integer overflow, %d is too large for %s", u, typ)
+		}
+		w.createNonPtrVal().SetInt(int64(u))
+	default:
+		return fmt.Errorf("bindnode: cannot assign an integer to %s", typ)
+	}
+	return nil
+}
+
+// setNegInt is setUint for negative integers.
+func (w *_assembler) setNegInt(i int64) error {
+	typ := w.val.Type()
+	if typ.Kind() == reflect.Ptr {
+		typ = typ.Elem()
+	}
+	switch {
+	case kindUint[typ.Kind()]:
+		return fmt.Errorf("bindnode: cannot assign negative integer to %s", typ)
+	case kindInt[typ.Kind()]:
+		if reflect.Zero(typ).OverflowInt(i) {
+			return fmt.Errorf("bindnode: integer overflow, %d is too small for %s", i, typ)
+		}
+		w.createNonPtrVal().SetInt(i)
+	default:
+		return fmt.Errorf("bindnode: cannot assign an integer to %s", typ)
+	}
+	return nil
+}
+
 func (w *_assembler) assignUInt(uin datamodel.UintNode) error {
 	if err := compatibleKind(w.schemaType, datamodel.Kind_Int); err != nil {
 		return err
@@ -870,11 +915,8 @@ func (w *_assembler) assignUInt(uin datamodel.UintNode) error {
 		if err != nil {
 			return err
 		}
-		if kindUint[w.val.Kind()] {
-			w.createNonPtrVal().SetUint(i)
-		} else {
-			// TODO: check for overflow
-			w.createNonPtrVal().SetInt(int64(i))
+		if err := w.setUint(i); err != nil {
+			return err
 		}
 	}
 	if w.finish != nil {
@@ -889,7 +931,6 @@ func (w *_assembler) AssignInt(i int64) error {
 	if err := compatibleKind(w.schemaType, datamodel.Kind_Int); err != nil {
 		return err
 	}
-	// TODO: check for overflow
 	customConverter := w.cfg.converterFor(w.schemaType.Name(), w.val)
 	_, isAny := w.schemaType.(*schema.TypeAny)
 	if customConverter != nil {
@@ -913,14 +954,12 @@ func (w *_assembler) AssignInt(i int64) error {
 		if isAny {
 			// Any means the Go type must receive a datamodel.Node
 			w.createNonPtrVal().Set(reflect.ValueOf(basicnode.NewInt(i)))
-		} else if kindUint[w.val.Kind()] {
-			if i < 0 {
-				// TODO: write a test
-				return fmt.Errorf("bindnode: cannot assign negative integer to %s", w.val.Type())
+		} else if i < 0 {
+			if err := w.setNegInt(i); err != nil {
+				return err
 			}
-			w.createNonPtrVal().SetUint(uint64(i))
-		} else {
-			w.createNonPtrVal().SetInt(i)
+		} else if err := w.setUint(uint64(i)); err != nil {
+			return err
 		}
 	}
 	if w.finish != nil {
